@@ -14,6 +14,10 @@ NA = {
 PENDING = "check not built yet in this session (work in progress; see DESIGN.md §4 for the planned rules)"
 
 CHECKS = {
+    "C13": dict(
+        technique="CFG path enumeration of the init cascades over probe outcomes + dataflow from CPUID/XGETBV inline-asm outputs to the probe result checked against the architecture manual + mnemonic scan of the objects the repo's Makefile builds",
+        text="For every outcome of the CPU probes, each of the six init functions stores a table whose vector width does not exceed what the probes reported and is the widest compiled-in candidate (widths and byte extents are computed from the back ends' IR, not from names); the AVX2 probe binds sub-leaf 0, tests the maximum leaf and the OS-enabled YMM state on every positive path; stubbed tables imply constant-0 probes and compiled-in tables a probe that can report their width; VEX/EVEX encodings appear only in objects reachable solely through AVX2-gated tables; probes are stateless with constant asm inputs; parallel_size equals the extent the selected back end processes. Decides selection for all calling contexts and CPU models, which the suite never inspects.",
+        note=NOTE + " x86 only; the OS-state clause is justified by the Intel SDM rule, not by a replay (no kernel without AVX state here). Objects are compiled by the host cc and disassembled, never run."),
     "C14": dict(
         technique="return-class-partitioned effect/guard dataflow (must-facts, must-stores, may-writes) composed through the vtable-resolved call graph, checked against a contract table",
         text="For all 50 public functions and the 30+ vtable slot functions, on every CFG path: the returns-0 class has an empty may-write set (reject before write), every guard the contract requires holds on all success paths (composed through vtable dispatch as the intersection over slot targets), status constants are within {0,1}, no checked / null-means-zero pointer is dereferenced (directly, via memcpy or via callees) without a dominating non-null test, and every returns-0 path crosses a failing contract clause (valid calls are not rejected). This covers every class of invalid argument and every object state at once, which the suite (no invalid call, no return value read) cannot.",
